@@ -12,6 +12,8 @@ def run(tier):
     reps.append(OW.frame_report())
     reps += OW.fg_frame_reports()
     reps.append(OW.schedule_report())
+    for rel, q, c in OW.RG_PROJECT_ITEMS:
+        reps.append(deductive.verify_function(rel, q, c, hooks=OW.project_hooks(c), prefix='%s::%s[in-clique answers]' % (rel, q)))
     # the sum-product message equations of loopy belief propagation, value-level (pv/contracts/fgbp.py)
     from ..contracts import fgbp as FG
     reps.append(deductive.verify_function(FG.ITEM[0], FG.ITEM[1], FG.ITEM[2], hooks=FG.hooks(), prefix='%s::%s[message equations]' % FG.ITEM[:2]))
